@@ -42,6 +42,7 @@ class HarnessError(Exception):
 
 # --------------------------------------------------------------------------- scratch
 _scratch = None
+_scratch_owner = None
 
 
 def scratch():
@@ -51,6 +52,8 @@ def scratch():
         base = os.environ.get("VERIF_SCRATCH", "/var/tmp")
         os.makedirs(base, exist_ok=True)
         _scratch = tempfile.mkdtemp(prefix="nlverif.", dir=base)
+        global _scratch_owner
+        _scratch_owner = os.getpid()
         atexit.register(_cleanup)
         for s in (signal.SIGTERM, signal.SIGINT, signal.SIGHUP):
             signal.signal(s, _sig)
@@ -58,12 +61,14 @@ def scratch():
 
 
 def _sig(signo, _frm):
-    _cleanup()
+    _cleanup()          # no-op in forked pool workers (only the owner removes the scratch dir)
     os._exit(128 + signo)
 
 
 def _cleanup():
     global _scratch
+    if _scratch_owner != os.getpid():
+        return
     if _scratch and os.path.isdir(_scratch) and not os.environ.get("VERIF_KEEP"):
         shutil.rmtree(_scratch, ignore_errors=True)
     _scratch = None
